@@ -43,7 +43,7 @@ import sched
 
 ID = 'C18'
 LEAN_MODULES = ['Yaql.Props.C18', 'Yaql.Props.C18Objs', 'Yaql.Props.C18Gen', 'Yaql.Props.C18Eval', 'Yaql.Props.EvalStore',
-                'Yaql.Props.C18Store']
+                'Yaql.Props.C18Store', 'Yaql.Props.C18Lists']
 REQUIRED_THEOREMS = [
     'Yaql.Props.C18.isolation', 'Yaql.Props.C18.isolation_exact', 'Yaql.Props.C18.interleaving',
     'Yaql.Props.C18.isolation_benign_cache', 'Yaql.Props.C18.oblivious_of_denotation',
@@ -51,6 +51,9 @@ REQUIRED_THEOREMS = [
     'Yaql.Props.C18.objs_isolated', 'Yaql.Props.C18.objs_results', 'Yaql.Props.C18.lazy_objects_private',
     'Yaql.Props.C18.partial_publication_interferes', 'Yaql.Props.C18.parked_state_interferes',
     'Yaql.Props.C18.shared_lazy_object_interferes',
+    'Yaql.Props.C18.lists_isolated', 'Yaql.Props.C18.lists_results', 'Yaql.Props.C18.lists_results_fresh',
+    'Yaql.Props.C18.inplace_sort_interferes', 'Yaql.Props.C18.inplace_sort_changes_shared_alone',
+    'Yaql.Props.C18.inplace_restore_interferes',
     'Yaql.Props.C18.refMachine_readOnly', 'Yaql.Props.C18.eval_model_isolated',
     'Yaql.Props.C18.eval_model_returns_framed',
     'Yaql.Props.C18.storeEval_frame', 'Yaql.Props.C18.evalS_writes_private', 'Yaql.Props.C18.evalS_isolated',
@@ -1641,6 +1644,10 @@ def run(env, res):
         if not hard(res):
             part_c(env, res, rng, hist, time.time() + (15 if tier == 'quick' else 90))
         if not hard(res):
+            # (C2) the real order_by over Python lists shared by the threads vs Model/SharedList.lean under the same trace
+            from props import c18lists
+            c18lists.part_c2(env, res, rng, hist, time.time() + (4 if tier == 'quick' else 40))
+        if not hard(res):
             part_d(env, res, rng, hist)
         if not hard(res):
             # (G) what evaluations write: generated programs of the C04 fragment on instrumented context classes, alone
@@ -1986,6 +1993,13 @@ def replay(env, res, case):
             f = compare_obj(env, case['case'], [(w, list(s.trace), results, hashes)])
         finally:
             undo()
+        res.case(('replay',), True)
+        if f is not None:
+            res.fail(f['kind'], f['key'], f['what'], f['case'])
+    elif kind == 'lists':
+        from props import c18lists
+        lists, s, real = c18lists.run_list_case(case['case'], case['schedule'])
+        f = c18lists.compare_lists(env, case['case'], [(list(s.trace), real, [[list(r) for r in l] for l in lists])])
         res.case(('replay',), True)
         if f is not None:
             res.fail(f['kind'], f['key'], f['what'], f['case'])
